@@ -351,11 +351,16 @@ fn codepoints_from_class(
 
 /// \return a Bracket for a given character escape (positive or negative).
 /// For icase mode, we expand the positive set first, then invert if needed.
-fn make_bracket_class(ct: CharacterClassType, positive: bool, icase: bool) -> ir::Node {
+fn make_bracket_class(
+    ct: CharacterClassType,
+    positive: bool,
+    icase: bool,
+    unicode: bool,
+) -> ir::Node {
     // Get the positive (non-inverted) set, perform any icase expansion, then maybe invert.
     let mut cps = codepoints_from_class_positive(ct);
     if icase {
-        cps = unicode::add_icase_code_points(cps);
+        cps = unicode::add_icase_code_points_for(cps, unicode);
     }
     if !positive {
         cps = cps.inverted();
@@ -861,7 +866,8 @@ where
                 Some(']') => {
                     self.consume(']');
                     if self.flags.icase {
-                        result.cps = unicode::add_icase_code_points(result.cps);
+                        result.cps =
+                            unicode::add_icase_code_points_for(result.cps, self.flags.unicode);
                     }
                     return Ok(ir::Node::Bracket(result));
                 }
@@ -1613,6 +1619,7 @@ where
                     CharacterClassType::Digits,
                     c == 'd' as u32,
                     self.flags.icase,
+                    self.flags.unicode,
                 ))
             }
 
@@ -1622,6 +1629,7 @@ where
                     CharacterClassType::Spaces,
                     c == 's' as u32,
                     self.flags.icase,
+                    self.flags.unicode,
                 ))
             }
 
@@ -1631,6 +1639,7 @@ where
                     CharacterClassType::Words,
                     c == 'w' as u32,
                     self.flags.icase,
+                    self.flags.unicode,
                 ))
             }
 
